@@ -132,6 +132,25 @@ def rf(rng, lo, hi):
     return round(rng.uniform(lo, hi), 3)
 
 
+def rb(rng, lo, hi, p=0.25, neg=True):
+    """a numeric argument: mostly uniform in [lo, hi], but with probability p a boundary value (integer and
+    float zero, negative zero, tiny, huge, negative) -- the values at which `if not x`, `x or default`,
+    `x > 0` style mistakes show"""
+    if rng.random() < p:
+        opts = [0, 0.0, -0.0, 1e-12, 1e4]
+        if neg:
+            opts += [-1e-12, -round(rng.uniform(0.01, 3), 3), -1e4]
+        return rng.choice(opts)
+    return rf(rng, lo, hi)
+
+
+def rbv(rng, lo, hi, p=0.25):
+    """a vector argument; with probability p some components are boundary values"""
+    if rng.random() < p:
+        return [rb(rng, lo, hi, 0.6) for _ in range(3)]
+    return [rf(rng, lo, hi) for _ in range(3)]
+
+
 def rpos(rng):
     return [rng.choice([-1, 1]) * rf(rng, 4, 40) for _ in range(3)]
 
@@ -154,7 +173,78 @@ def rpose(rng, parent=None, local=None):
 
 
 def tup(v):
-    return "(" + ", ".join(repr(float(x)) for x in v) + ")"
+    return "(" + ", ".join(repr(x) if isinstance(x, int) else repr(float(x)) for x in v) + ")"
+
+
+# ----------------------------------------------------------------------------- vector fields
+def gen_field(rng):
+    kind = rng.choice(["heading", "tuple", "orient", "affine", "affine", "affine", "poly"])
+    fd = dict(kind=kind)
+    if kind == "heading":
+        fd["base"] = [rf(rng, -3.1, 3.1), 0.0, 0.0]
+    elif kind in ("tuple", "orient"):
+        fd["base"] = reul(rng, "full")
+    elif kind == "affine":
+        fd["base"] = [rf(rng, -3.1, 3.1), rf(rng, -1.0, 1.0), rf(rng, -3.1, 3.1)]
+        fd["grad"] = [[round(rng.uniform(-0.02, 0.02), 4) for _ in range(3)] for _ in range(3)]
+    else:
+        fd["quad"] = [rf(rng, -3.1, 3.1) for _ in range(4)]
+    return fd
+
+
+def field_src(fd):
+    """Scenic source defining the vector field `fld` (python-defined VectorField / PolygonalVectorField)"""
+    L = ["from scenic.core.vectors import VectorField, PolygonalVectorField", "import shapely.geometry"]
+    b = fd.get("base")
+    if fd["kind"] == "heading":
+        L.append(f"fld = VectorField('fld', lambda pos: {b[0]!r})")
+    elif fd["kind"] == "tuple":
+        L.append(f"fld = VectorField('fld', lambda pos: {tup(b)})")
+    elif fd["kind"] == "orient":
+        L.append(f"fld = VectorField('fld', lambda pos: Orientation.fromEuler{tup(b)})")
+    elif fd["kind"] == "affine":
+        g = fd["grad"]
+        comp = ", ".join(f"{b[j]!r} + ({g[j][0]!r} * pos.x + {g[j][1]!r} * pos.y + {g[j][2]!r} * pos.z)" for j in range(3))
+        L.append("def _fv(pos):")
+        L.append(f"    return Orientation.fromEuler({comp})")
+        L.append("fld = VectorField('fld', _fv)")
+    else:
+        q = fd["quad"]
+        B = 100000
+        cells = [f"(shapely.geometry.box(0, 0, {B}, {B}), {q[0]!r})", f"(shapely.geometry.box(-{B}, 0, 0, {B}), {q[1]!r})",
+                 f"(shapely.geometry.box(-{B}, -{B}, 0, 0), {q[2]!r})", f"(shapely.geometry.box(0, -{B}, {B}, 0), {q[3]!r})"]
+        L.append("fld = PolygonalVectorField('fld', [" + ", ".join(cells) + "])")
+    return L
+
+
+def field_eval(fd, pos):
+    """the field's value (Euler triple) at pos, computed independently of Scenic; None when pos is too close
+    to a cell boundary of a polygonal field"""
+    if fd["kind"] == "affine":
+        b, g = fd["base"], fd["grad"]
+        return [b[j] + (g[j][0] * pos[0] + g[j][1] * pos[1] + g[j][2] * pos[2]) for j in range(3)]
+    if fd["kind"] == "poly":
+        if abs(pos[0]) < 1e-6 or abs(pos[1]) < 1e-6:
+            return None
+        i = (0 if pos[1] > 0 else 3) if pos[0] > 0 else (1 if pos[1] > 0 else 2)
+        return [fd["quad"][i], 0.0, 0.0]
+    return list(fd["base"])
+
+
+def follow_ref(fd, x, D):
+    """forward Euler as documented for `following F from X for D`: max(4, ceil(D/5)) equal steps of D/steps along
+    the field's forward axis; returns (n, step, visited positions, final position) or None near a cell boundary"""
+    n = max(4, math.ceil(D / 5))
+    step = D / n
+    pos, vis = [float(c) for c in x], []
+    for _ in range(n):
+        e = field_eval(fd, pos)
+        if e is None:
+            return None
+        vis.append(list(pos))
+        d = q_rot(q_euler(e), [0.0, step, 0.0])
+        pos = [a + b for a, b in zip(pos, d)]
+    return n, step, vis, pos
 
 
 def pose_src(p, with_pos=True):
@@ -175,7 +265,8 @@ def gen_program(rng, idx, nplace):
     ego["dims"] = rdims(rng)
     op = rpose(rng, parent="full", local=rng.choice(["full", "yaw"]))
     H = reul(rng, rng.choice(["full", "full", "yaw"]))
-    L = [f"ego = new Object {pose_src(ego)}, {dims_src(ego['dims'])}, with vid 0, with allowCollisions True",
+    fd = gen_field(rng)
+    L = field_src(fd) + [f"ego = new Object {pose_src(ego)}, {dims_src(ego['dims'])}, with vid 0, with allowCollisions True",
          f"op = new OrientedPoint {pose_src(op)}",
          f"hp = new OrientedPoint at (0, 0, 0), with parentOrientation {tup(H)}",
          "param op = op", "param hp = hp"]
@@ -187,7 +278,8 @@ def gen_program(rng, idx, nplace):
         return vid[0]
 
     tail = lambda v: f"with vid {v}, with allowCollisions True"
-    kinds = ["dir"] * 5 + ["beyond"] * 2 + ["offset", "facing", "toward", "toward", "apparently", "scalar", "box"]
+    kinds = ["dir"] * 5 + ["beyond"] * 2 + ["offset", "facing", "toward", "toward", "apparently", "scalar", "box"] \
+        + ["ffield", "ffield", "along", "follow", "onobj", "onpt"]
     chosen = [kinds[i % len(kinds)] for i in range(nplace)] if nplace >= len(kinds) else rng.sample(kinds, nplace)
     for k in chosen:
         if k == "dir":
@@ -196,13 +288,14 @@ def gen_program(rng, idx, nplace):
             by = rng.choice(["none", "scalar", "scalar", "vector"])
             aligned = ref == "vec" or rng.random() < 0.7
             it = dict(kind="dir", d=d, ref=ref, by=by, aligned=aligned, vid=newvid(), dims=rdims(rng),
-                      ct=rng.choice([1e-4, rf(rng, 0.01, 1.0)]), loc=[0.0, 0.0, 0.0], par=[0.0, 0.0, 0.0])
+                      ct=rng.choice([1e-4, 1e-4, rf(rng, 0.01, 1.0), rf(rng, 0.01, 1.0), 0, 2.5]), loc=[0.0, 0.0, 0.0], par=[0.0, 0.0, 0.0])
             if by == "scalar":
-                D = rf(rng, 0.0, 6.0)
+                D = rb(rng, 0.0, 6.0, 0.35)
                 it["byv"] = [D, D, D]
-                bysrc = f" by {D!r}"
+                it["byform"] = rng.choice(["literal"] * 5 + ["range", "uniform"])
+                bysrc = {"literal": f" by {D!r}", "range": f" by Range({D!r}, {D!r})", "uniform": f" by Uniform({D!r}, {D!r})"}[it["byform"]]
             elif by == "vector":
-                it["byv"] = [rf(rng, -5, 5), rf(rng, -5, 5), rf(rng, -5, 5)]
+                it["byv"] = rbv(rng, -5, 5)
                 bysrc = f" by {tup(it['byv'])}"
             else:
                 it["byv"] = [0.0, 0.0, 0.0]
@@ -226,11 +319,11 @@ def gen_program(rng, idx, nplace):
             by = rng.choice(["scalar", "vector"])
             it = dict(kind="beyond", frm=frm, by=by, vid=newvid(), p=rpos(rng))
             if by == "scalar":
-                D = rf(rng, -3, 8)
+                D = rb(rng, -3, 8)
                 it["byv"] = [0.0, D, 0.0]
                 bysrc = repr(D)
             else:
-                it["byv"] = [rf(rng, -5, 5), rf(rng, -5, 5), rf(rng, -5, 5)]
+                it["byv"] = rbv(rng, -5, 5)
                 bysrc = tup(it["byv"])
             if frm == "vec":
                 it["q"] = rpos(rng)
@@ -241,7 +334,7 @@ def gen_program(rng, idx, nplace):
             L.append(f"new Object beyond {tup(it['p'])} by {bysrc}{fsrc}, {tail(it['vid'])}")
             items.append(it)
         elif k == "offset":
-            it = dict(kind="offset", v=[rf(rng, -9, 9) for _ in range(3)], vid_by=newvid(), vid_along=newvid(),
+            it = dict(kind="offset", v=rbv(rng, -9, 9), vid_by=newvid(), vid_along=newvid(),
                       hform=rng.choice(["orient", "tuple"]))
             v = tup(it["v"])
             hs = "hp.orientation" if it["hform"] == "orient" else tup(H)
@@ -264,13 +357,15 @@ def gen_program(rng, idx, nplace):
             it = dict(kind="toward", vid=newvid(), pos=rpos(rng), par=reul(rng, rng.choice(["full", "full", "yaw", "zero"])),
                       p=rpos(rng), away=rng.random() < 0.5, directly=rng.random() < 0.5,
                       roll=rng.choice([0.0, rf(rng, -3, 3)]))
+            if rng.random() < 0.1:
+                it["roll"] = rng.choice([1e-12, -0.0, 1e4])
             word = ("directly " if it["directly"] else "") + ("away from" if it["away"] else "toward")
             rs = f", with roll {it['roll']!r}" if it["roll"] else ""
             L.append(f"new Object at {tup(it['pos'])}, with parentOrientation {tup(it['par'])}, facing {word} {tup(it['p'])}{rs}, {tail(it['vid'])}")
             items.append(it)
         elif k == "apparently":
             it = dict(kind="apparently", vid=newvid(), pos=rpos(rng), par=reul(rng, rng.choice(["zero", "yaw", "full"])),
-                      p=rpos(rng), h=rf(rng, -3, 3), frm=rng.choice(["vec", "ego"]))
+                      p=rpos(rng), h=rb(rng, -3, 3, 0.15), frm=rng.choice(["vec", "ego"]))
             if it["frm"] == "ego":
                 it["p"] = ego["pos"]
             fs = f" from {tup(it['p'])}" if it["frm"] == "vec" else ""
@@ -292,13 +387,65 @@ def gen_program(rng, idx, nplace):
             L.append(f"param {t}_ah = apparent heading of op from {b}")
             L.append(f"param {t}_relpos = relative position of {b} from {a}")
             items.append(it)
+        elif k == "ffield":
+            # facing <vector field>, under an explicit or an inherited non-global parentOrientation
+            it = dict(kind="ffield", vid=newvid(), pos=rpos(rng), par=reul(rng, rng.choice(["full", "full", "full", "yaw", "zero"])),
+                      how=rng.choice(["at", "at", "at", "ahead of op", "left of ego"]),
+                      rel=rng.choice(["none", "none", "hrel", "frel"]), H=reul(rng, rng.choice(["yaw", "full"])))
+            hs = repr(it["H"][0]) if it["H"][1:] == [0.0, 0.0] else tup(it["H"])
+            fs = {"none": "fld", "hrel": f"({hs} relative to fld)", "frel": f"(fld relative to {hs})"}[it["rel"]]
+            if it["how"] == "at":
+                ps = f"at {tup(it['pos'])}, with parentOrientation {tup(it['par'])}"
+            else:
+                ps = f"{it['how']} by {rf(rng, 0.5, 9)!r}"
+            L.append(f"new Object {ps}, facing {fs}, {tail(it['vid'])}")
+            items.append(it)
+        elif k == "along":
+            n = len([i for i in items if i["kind"] == "along"])
+            it = dict(kind="along", vid=newvid(), v=rbv(rng, -9, 9), x=rpos(rng), tag=f"al{n}")
+            L.append(f"new Object offset along fld by {tup(it['v'])}, {tail(it['vid'])}")
+            L.append(f"param {it['tag']}_ego = ego offset along fld by {tup(it['v'])}")
+            L.append(f"param {it['tag']}_vec = {tup(it['x'])} offset along fld by {tup(it['v'])}")
+            items.append(it)
+        elif k == "follow":
+            n = len([i for i in items if i["kind"] == "follow"])
+            D = rng.choice([rf(rng, 0.5, 19), rf(rng, 20, 58), rf(rng, 0.5, 58), 20, 20.000001, 25.0, 0, 0.0, -0.0, 1e-12,
+                            -rf(rng, 0.5, 30), 5, 1e-3])
+            it = dict(kind="follow", vid=newvid(), frm=rng.choice(["ego", "vec"]), x=rpos(rng), D=D, tag=f"fo{n}")
+            if it["frm"] == "ego":
+                it["x"] = ego["pos"]
+            fs = "" if it["frm"] == "ego" else f" from {tup(it['x'])}"
+            L.append(f"new Object following fld{fs} for {D!r}, {tail(it['vid'])}")
+            L.append(f"param {it['tag']} = follow fld from {tup(it['x'])} for {D!r}")
+            items.append(it)
+        elif k == "onobj":
+            it = dict(kind="onobj", vid=newvid(), dims=rdims(rng), ct=rng.choice([1e-4, rf(rng, 0.01, 1.0), 0, 2.5]),
+                      base=rng.choice([None, None, [rf(rng, -1, 1), rf(rng, -1, 1), rf(rng, -2, 2)], [0, 0, 0]]))
+            bs = f", with baseOffset {tup(it['base'])}" if it["base"] is not None else ""
+            L.append(f"new Object on ego, {dims_src(it['dims'])}, with contactTolerance {it['ct']!r}{bs}, {tail(it['vid'])}")
+            items.append(it)
+        elif k == "onpt":
+            it = dict(kind="onpt", vid=newvid(), dims=rdims(rng), ct=rng.choice([1e-4, rf(rng, 0.01, 1.0), 0, 2.5]),
+                      base=rng.choice([None, None, [rf(rng, -1, 1), rf(rng, -1, 1), rf(rng, -2, 2)]]),
+                      how=rng.choice(["vec", "on-ps", "on-ps", "in-ps", "on-ps-plain"]), pts=[rpos(rng) for _ in range(rng.choice([1, 1, 3]))])
+            bs = f", with baseOffset {tup(it['base'])}" if it["base"] is not None else ""
+            pts = "[" + ", ".join(tup(p) for p in it["pts"]) + "]"
+            if it["how"] == "vec":
+                it["pts"] = it["pts"][:1]
+                ts = "on " + tup(it["pts"][0])
+            elif it["how"] == "on-ps-plain":
+                ts = f"on PointSetRegion('ps', {pts})"
+            else:
+                ts = f"{it['how'][:2]} PointSetRegion('ps', {pts}, orientation=fld)"
+            L.append(f"new Object {ts}, {dims_src(it['dims'])}, with contactTolerance {it['ct']!r}{bs}, {tail(it['vid'])}")
+            items.append(it)
         elif k == "box":
             n = len([i for i in items if i["kind"] == "box"])
             it = dict(kind="box", side=rng.randrange(len(SIDES)), tag=f"b{n}")
             L.append(f"param {it['tag']}_side = {SIDES[it['side']]} of ego")
             items.append(it)
     src = "\n".join(L) + "\n"
-    return dict(name=f"prog{idx}", src=src, seed=rng.randint(0, 10 ** 6), ego=ego, op=op, H=H, items=items)
+    return dict(name=f"prog{idx}", src=src, seed=rng.randint(0, 10 ** 6), ego=ego, op=op, H=H, fd=fd, items=items)
 
 
 # ----------------------------------------------------------------------------- model inputs
@@ -342,6 +489,44 @@ def model_line(job, it, obs):
             + pose_block(op) + pose_block(ego) + ha(P[t + "_rh"]) + ha(P[t + "_ah"]) + P["op"]["q"] + O["0"]["q"]
     if k == "box":
         return 7, pose_block(ego) + ego["dims"] + [it["side"]] + O["0"]["q"]
+    fd = job.get("fd")
+    if k == "ffield":
+        o = O[str(it["vid"])]
+        F = field_eval(fd, o["pos"])
+        if F is None:
+            return None, None
+        it["F"] = F
+        return 8, o["pq"] + eul(F) + eul(it["H"]) + [{"none": 0, "hrel": 1, "frel": 2}[it["rel"]]] + eul(o["ypr"])
+    if k == "along":
+        F1, F2 = field_eval(fd, ego["pos"]), field_eval(fd, it["x"])
+        if F1 is None or F2 is None:
+            return None, None
+        it["F1"], it["F2"] = F1, F2
+        return 9, list(ego["pos"]) + eul(F1) + it["x"] + eul(F2) + it["v"]
+    if k == "follow":
+        r = follow_ref(fd, it["x"], it["D"])
+        Ff = field_eval(fd, r[3]) if r else None
+        if r is None or Ff is None:
+            return None, None
+        n, step, vis, fin = r
+        it["ref"] = dict(n=n, step=step, final=fin, Ffinal=Ff)
+        a = list(it["x"]) + [step, n] + eul(Ff)
+        for v in vis:
+            a += eul(field_eval(fd, v))
+        return 10, a
+    if k == "onobj":
+        o = O[str(it["vid"])]
+        return 11, pose_block(ego) + ego["dims"] + O["0"]["q"] + o["pos"] + o["q"] + it["dims"]
+    if k == "onpt":
+        o = O[str(it["vid"])]
+        base = it["base"] if it["base"] is not None else [0.0, 0.0, -it["dims"][2] / 2]
+        off = norm(sub([0.0, 0.0, it["ct"] / 2], base)) if it["how"] != "in-ps" else 0.0
+        pt = min(it["pts"], key=lambda q: abs(norm(sub(o["pos"], q)) - off))
+        F = [0.0, 0.0, 0.0] if it["how"] in ("vec", "on-ps-plain") else field_eval(fd, pt)
+        if F is None:
+            return None, None
+        it["pt"], it["F"], it["mode"] = pt, F, {"vec": 0, "on-ps-plain": 0, "on-ps": 1, "in-ps": 2}[it["how"]]
+        return 12, list(pt) + eul(F) + [it["ct"]] + base + [it["mode"]]
     raise ValueError(k)
 
 
@@ -573,6 +758,119 @@ def evaluate(c, job, it, obs, m):
             oracle("frame", f"`{SIDES[it['side']]} of ego` is not the midpoint of that side/edge/corner of the bounding box", impl=s["pos"], documented=want)
         c.hist("box:" + str(len(words)) + "-word")
         return ego_nontrivial(job)
+    fd = job.get("fd")
+    IDQ = [0.0, 0.0, 0.0, 1.0]
+    tilted = lambda e: bool(e[1] or e[2])
+    if k == "ffield":
+        o = O[str(it["vid"])]
+        tq = q_euler(it["F"])
+        if it["rel"] == "hrel":
+            tq = q_mul(tq, q_euler(it["H"]))
+        elif it["rel"] == "frel":
+            tq = q_mul(q_euler(it["H"]), tq)
+        if not qclose(m[0:4], tq):
+            corr("value of the field expression at the object's position (harness reference)", tq, m[0:4])
+        if not qclose(m[4:8], o["q"]):
+            corr("`facing <field>`: parent * (parent^-1 * F[position])", o["q"], m[4:8])
+        if not qclose(m[8:12], o["q"]):
+            corr("parent * fromEuler(local angles chosen by `facing <field>`)", o["q"], m[8:12])
+        if not qclose(o["q"], tq):
+            oracle("facing-field", "`facing <vector field>` does not yield the field's value at the object's position as the global orientation",
+                   impl=o["q"], documented=tq, field_value=it["F"], parentOrientation=o["pq"])
+        if it["how"] != "at":
+            docq = P["op"]["q"] if "op" in it["how"] else ego_i["q"]
+            if not qclose(o["pq"], docq):
+                oracle("inherit", f"`{it['how']}` does not give X's orientation as parentOrientation", impl=o["pq"], documented=docq)
+        elif not qclose(o["pq"], q_euler(it["par"])):
+            oracle("inherit", "explicit `with parentOrientation` not kept", impl=o["pq"], documented=q_euler(it["par"]))
+        c.hist(f"ffield:{fd['kind']}:{it['rel']}:{'at' if it['how'] == 'at' else 'inherited'}")
+        return not qclose(o["pq"], IDQ) and (tilted(it["F"]) or abs(o["pq"][0]) + abs(o["pq"][1]) > 1e-6)
+    if k == "along":
+        o = O[str(it["vid"])]
+        for name, impl, mm in (("offset along <field> (specifier)", o["pos"], m[0:3]), ("ego offset along <field> by V", P[it["tag"] + "_ego"]["v"], m[0:3]),
+                               ("X offset along <field> by V", P[it["tag"] + "_vec"]["v"], m[3:6])):
+            if not vclose(mm, impl, 50):
+                corr(name, impl, mm)
+        for name, x, F, impl in (("specifier", ego_i["pos"], it["F1"], o["pos"]), ("operator", it["x"], it["F2"], P[it["tag"] + "_vec"]["v"])):
+            haxes = [q_rot(q_euler(F), e) for e in ([1, 0, 0], [0, 1, 0], [0, 0, 1])]
+            loc = [dot(ax, sub(impl, x)) for ax in haxes]
+            if not vclose(loc, it["v"], 50):
+                oracle("frame", f"`offset along <field> by V` ({name}) is not V in the frame centred at X and oriented along the field's value at X",
+                       impl=loc, documented=it["v"])
+        if not qclose(o["pq"], ego_i["q"]):
+            oracle("inherit", "`offset along <field>` does not give ego's orientation as parentOrientation", impl=o["pq"], documented=ego_i["q"])
+        c.hist("along:" + fd["kind"])
+        return tilted(it["F1"]) or tilted(it["F2"])
+    if k == "follow":
+        o, fp, ref = O[str(it["vid"])], P[it["tag"]], it["ref"]
+        scale = 50 + abs(it["D"])
+        for name, x in (("following (specifier)", o), ("follow (operator)", fp)):
+            if not vclose(m[0:3], x["pos"], scale):
+                corr(f"position of `{name}`", x["pos"], m[0:3])
+            if not qclose(m[3:7], x["pq"]):
+                corr(f"parentOrientation of `{name}`", x["pq"], m[3:7])
+            if not vclose(x["pos"], ref["final"], scale):
+                oracle("following", f"`{name}` F from X for D is not the forward-Euler path of max(4, ceil(D/5)) equal steps along the field",
+                       impl=x["pos"], documented=ref["final"], steps=ref["n"], step=ref["step"])
+            if not qclose(x["pq"], q_euler(ref["Ffinal"])):
+                oracle("following", f"`{name}` does not give the field's value at the end point as parentOrientation", impl=x["pq"], documented=q_euler(ref["Ffinal"]))
+            if norm(sub(x["pos"], it["x"])) > abs(it["D"]) * (1 + 1e-9) + 1e-9:
+                oracle("following", f"`{name}` F from X for D ends further than |D| from X", impl=x["pos"], D=it["D"])
+        c.hist(f"follow:{fd['kind']}:{'zero' if it['D'] == 0 else 'neg' if it['D'] < 0 else 'min-steps' if it['D'] <= 20 else 'more-steps'}")
+        return it["D"] != 0
+    if k == "onobj":
+        o = O[str(it["vid"])]
+        if not qclose(m[0:4], ego_i["q"]):
+            corr("orientation of ego", ego_i["q"], m[0:4])
+        axes, naxes = axes_from_corners(ego_i["corners"]), axes_from_corners(o["corners"])
+        up = axes[2]
+        gap = gap_from_corners(up, ego_i["corners"], o["corners"])
+        if not close(m[4], gap, 50):
+            corr("gap between the corner sets along X's up axis", gap, m[4])
+        loc = [dot(ax, sub(o["pos"], ego_i["pos"])) for ax in axes]
+        if not vclose(m[5:8], loc, 50):
+            corr("centre of the new object in X's frame", loc, m[5:8])
+        if not vclose(m[8:11], [0, 0, 0]) or not vclose(naxes[2], up):
+            oracle("on", "`on <Object>`: the new object's up axis is not the normal of X's top face", impl=naxes[2], documented=up)
+        base = it["base"] if it["base"] is not None else [0.0, 0.0, -it["dims"][2] / 2]
+        if not vclose(o["base"], base):
+            oracle("on", "baseOffset is not the documented default (0,0,-height/2) / the given one", impl=o["base"], documented=base)
+        bp = [o["pos"][j] + sum(base[i] * naxes[i][j] for i in range(3)) for j in range(3)]
+        h = dot(up, sub(bp, ego_i["pos"])) - job["ego"]["dims"][2] / 2
+        if not close(h, it["ct"] / 2, 50):
+            oracle("on", f"`on <Object>`: the base point of the new object is {h!r} above X's top face, documented contactTolerance/2 = {it['ct'] / 2!r}",
+                   got=h, documented=it["ct"] / 2)
+        if it["base"] is None and not close(gap, it["ct"] / 2, 50):
+            oracle("gap", f"`on <Object>` leaves a gap of {gap!r} between the bounding boxes along X's up axis, documented {it['ct'] / 2!r}",
+                   gap=gap, documented=it["ct"] / 2)
+        bl = [dot(ax, sub(bp, ego_i["pos"])) for ax in axes]
+        if abs(bl[0]) > job["ego"]["dims"][0] / 2 + 1e-6 or abs(bl[1]) > job["ego"]["dims"][1] / 2 + 1e-6:
+            oracle("on", "`on <Object>`: the base point is not over X's top face", impl=bl)
+        c.hist("on:object:" + ("default-base" if it["base"] is None else "base"))
+        return ego_nontrivial(job)
+    if k == "onpt":
+        o = O[str(it["vid"])]
+        base = it["base"] if it["base"] is not None else [0.0, 0.0, -it["dims"][2] / 2]
+        fq = q_euler(it["F"])
+        off = q_rot(fq, sub([0.0, 0.0, it["ct"] / 2], base)) if it["mode"] < 2 else [0.0, 0.0, 0.0]
+        want = [a + b for a, b in zip(it["pt"], off)]
+        if not vclose(m[0:3], o["pos"], 50):
+            corr(f"position of `{it['how']}`", o["pos"], m[0:3])
+        if not qclose(m[3:7], o["pq"]):
+            corr(f"parentOrientation of `{it['how']}`", o["pq"], m[3:7])
+        if not vclose(o["pos"], want, 50):
+            oracle("on", f"`{it['how']}`: position is not the surface point plus the contact offset ((0,0,contactTolerance/2) - baseOffset) in the surface's orientation",
+                   impl=o["pos"], documented=want)
+        if not qclose(o["pq"], fq):
+            oracle("inherit", f"`{it['how']}` does not give the region's orientation at the point as parentOrientation", impl=o["pq"], documented=fq)
+        if it["base"] is None and it["mode"] < 2:
+            nrm = q_rot(fq, [0.0, 0.0, 1.0])
+            low = min(dot(nrm, sub(cc, it["pt"])) for cc in o["corners"])
+            if not close(low, it["ct"] / 2, 50):
+                oracle("gap", f"`{it['how']}`: the bounding box is {low!r} above the surface point along the surface normal, documented {it['ct'] / 2!r}",
+                       gap=low, documented=it["ct"] / 2)
+        c.hist(f"on:{it['how']}:" + ("default-base" if it["base"] is None else "base"))
+        return it["mode"] == 0 or tilted(it["F"])
     raise ValueError(k)
 
 
@@ -582,7 +880,7 @@ def ego_nontrivial(job):
 
 
 def strip(job):
-    return dict(name=job["name"], src=job["src"], seed=job["seed"], ego=job["ego"], op=job["op"], H=job["H"], items=job["items"])
+    return dict(name=job["name"], src=job["src"], seed=job["seed"], ego=job["ego"], op=job["op"], H=job["H"], fd=job.get("fd"), items=job["items"])
 
 
 # ----------------------------------------------------------------------------- main
@@ -618,7 +916,7 @@ def main():
         for f in sorted(os.listdir(corpus_dir)):
             if f.endswith(".json"):
                 jobs.append(json.load(open(os.path.join(corpus_dir, f))))
-    jobs += [gen_program(rng, i, 14) for i in range(nprog)]
+    jobs += [gen_program(rng, i, 20) for i in range(nprog)]
     if c.replay:
         body = json.load(open(c.replay))
         jobs = [body["case"]["job"]] if "job" in body.get("case", {}) else jobs[:4]
@@ -645,6 +943,9 @@ def main():
                 kind, a = model_line(job, it, obs)
             except KeyError as e:
                 c.violation("harness", "observation missing for an item", dict(job=strip(job), item=it, missing=str(e)))
+                continue
+            if kind is None:
+                c.hist("skipped:cell-boundary")
                 continue
             lines.append(str(kind) + " " + " ".join(qs(x) for x in a))
             index.append((job, it, obs))
